@@ -7,31 +7,47 @@
 (* The model abstracts integration to "reach the target" (C03 is checked elsewhere) and     *)
 (* lets TLC check the facade's own logic on every short t_eval over a small tick range:      *)
 (* unsorted and repeated entries, with or without the end points.                           *)
+(* A TERMINAL EVENT (at tick ev, or none: ev = NoEvent) stops the run: integrate(t) from cur      *)
+(* past ev ends at ev with status "event"; the facade then returns the requested times it had      *)
+(* reached and goes no further.  Deviation "carriesOnPastTheEvent" is the facade before repair 37:  *)
+(* it collected the event time as if it had been requested and went on calling integrate().        *)
 EXTENDS Integers, Sequences, FiniteSets, TLC
-CONSTANTS T0, TF, MAXN
+CONSTANTS T0, TF, MAXN, Dev
+NoEvent == T0 - 1
 Ticks == T0..TF
 RECURSIVE SortedOf(_)
 Insert(x, s) == LET k == CHOOSE k \in 0..Len(s) : (\A i \in 1..k : s[i] <= x) /\ (\A i \in (k + 1)..Len(s) : s[i] > x)
                 IN  SubSeq(s, 1, k) \o <<x>> \o SubSeq(s, k + 1, Len(s))
 SortedOf(s) == IF s = << >> THEN << >> ELSE Insert(s[1], SortedOf(Tail(s)))
 
-VARIABLES teval, cur, k, out, calls
-vars == <<teval, cur, k, out, calls>>
+VARIABLES teval, ev, cur, k, out, calls, stopped, nev
+vars == <<teval, ev, cur, k, out, calls, stopped, nev>>
 Init == /\ teval \in UNION {[1..n -> Ticks] : n \in 1..MAXN}
-        /\ cur = T0 /\ k = 1 /\ out = << >> /\ calls = << >>
+        /\ ev \in (Ticks \ {T0}) \cup {NoEvent}
+        /\ cur = T0 /\ k = 1 /\ out = << >> /\ calls = << >> /\ stopped = FALSE /\ nev = 0
+(* integrate(t) from cur: stopped by the terminal event when it lies in (cur, t] (or at cur again, when a call is made from the event: *)
+(* duplicate suppression is per call, the event fires at once)                                                                        *)
+Hits(t) == ev # NoEvent /\ ((cur < ev /\ ev <= t) \/ (cur = ev /\ nev > 0 /\ t > cur))
 (* one iteration of the facade's loop: integrate(t) (a no-op when already there) and collect the current row *)
-Visit == /\ k <= Len(teval)
+Visit == /\ k <= Len(teval) /\ ~stopped
          /\ LET t == SortedOf(teval)[k] IN
               /\ calls' = Append(calls, [from |-> cur, to |-> t, noop |-> (t = cur)])
-              /\ cur' = t
-              /\ out' = Append(out, t)
+              /\ IF Hits(t)
+                 THEN /\ cur' = ev /\ nev' = nev + 1
+                      /\ IF "carriesOnPastTheEvent" \in Dev
+                         THEN out' = Append(out, ev) /\ stopped' = FALSE
+                         ELSE out' = out /\ stopped' = TRUE
+                 ELSE cur' = t /\ out' = Append(out, t) /\ UNCHANGED <<stopped, nev>>
          /\ k' = k + 1
-         /\ UNCHANGED teval
+         /\ UNCHANGED <<teval, ev>>
 Next == Visit
 Spec == Init /\ [][Next]_vars
-Done == k = Len(teval) + 1
-ReturnsExactlyTheRequestedTimesSorted == Done => out = SortedOf(teval)
-OneColumnPerRequestedTime == Done => Len(out) = Len(teval)
+Done == stopped \/ k = Len(teval) + 1
+Reached == SelectSeq(SortedOf(teval), LAMBDA t : ev = NoEvent \/ t < ev)      \* the requested times before the terminal event
+ReturnsExactlyTheRequestedTimesSorted == Done => out = Reached
+OneColumnPerRequestedTime == Done => Len(out) = Len(Reached)
+NothingReturnedBeyondATerminalEvent == \A i \in 1..Len(out) : ev = NoEvent \/ out[i] < ev
+TerminalEventReportedOnce == nev <= 1
 NeverIntegratesBackwards == \A i \in 1..Len(calls) : calls[i].to >= calls[i].from
 RepeatedTimeIsANoOp == \A i \in 1..Len(calls) : calls[i].noop <=> (calls[i].to = calls[i].from)
 SortIsAPermutation == \A x \in Ticks : Cardinality({i \in 1..Len(teval) : teval[i] = x}) = Cardinality({i \in 1..Len(SortedOf(teval)) : SortedOf(teval)[i] = x})
